@@ -214,6 +214,7 @@ func reachableAvoiding(fn *ssa.Function, cut func(from *ssa.BasicBlock, idx int)
 
 func runC09(p *core.Program, r *core.Report) {
 	c := rc{p, r}
+	workOnEveryPath(c, "trie.(*Trie).Keys", "keys collected on every path", "", "", []string{"collect"}, "Keys returns on a path that does not walk the trie: a stale or empty queue is handed out")
 	const T = "trie.(*Trie)."
 	const N = "trie.(*node)."
 	fPut, fGet, fContains, fLP, fSW, fKeys, fSize := c.fn(T+"Put"), c.fn(T+"Get"), c.fn(T+"Contains"), c.fn(T+"LongestPrefix"), c.fn(T+"StartsWith"), c.fn(T+"Keys"), c.fn(T+"Size")
